@@ -53,6 +53,7 @@ typedef struct CO_SYNC_T {
     uint32_t          Cycle;            /*!< SYNC producer cycle time (us)   */
     CO_IF_FRM         RFrm[CO_RPDO_N];  /*!< synchronous RPDO CAN frame      */
     struct CO_RPDO_T *RPdo[CO_RPDO_N];  /*!< Pointer to synchronous RPDO     */
+    uint8_t           RNew[CO_RPDO_N];  /*!< synchronous RPDO frame received */
     struct CO_TPDO_T *TPdo[CO_TPDO_N];  /*!< Pointer to synchronous TPDO     */
     uint8_t           TNum[CO_TPDO_N];  /*!< SYNCs until PDO shall be sent   */
     uint8_t           TSync[CO_TPDO_N]; /*!< SYNC time when tx must occur    */
